@@ -13,6 +13,7 @@ pub mod c10;
 pub mod c11;
 pub mod c12;
 pub mod c13;
+pub mod c14;
 pub mod c15;
 pub mod c16;
 pub mod c17;
@@ -43,5 +44,5 @@ pub mod c41;
 pub mod c42;
 
 pub fn all() -> Vec<PropDef> {
-    vec![c01::def(), c02::def(), c03::def(), c04::def(), c05::def(), c06::def(), c07::def(), c08::def(), c09::def(), c10::def(), c11::def(), c12::def(), c13::def(), c15::def(), c16::def(), c17::def(), c18::def(), c19::def(), c20::def(), c21::def(), c22::def(), c23::def(), c24::def(), c25::def(), c26::def(), c27::def(), c28::def(), c29::def(), c30::def(), c31::def(), c32::def(), c33::def(), c34::def(), c35::def(), c36::def(), c37::def(), c38::def(), c39::def(), c40::def(), c41::def(), c42::def()]
+    vec![c01::def(), c02::def(), c03::def(), c04::def(), c05::def(), c06::def(), c07::def(), c08::def(), c09::def(), c10::def(), c11::def(), c12::def(), c13::def(), c14::def(), c15::def(), c16::def(), c17::def(), c18::def(), c19::def(), c20::def(), c21::def(), c22::def(), c23::def(), c24::def(), c25::def(), c26::def(), c27::def(), c28::def(), c29::def(), c30::def(), c31::def(), c32::def(), c33::def(), c34::def(), c35::def(), c36::def(), c37::def(), c38::def(), c39::def(), c40::def(), c41::def(), c42::def()]
 }
